@@ -28,10 +28,6 @@ theorem srcBranches_eq : ∀ (ds : List BrD), srcBranches ds = srcOfSyn (ds.map 
   | [] => rfl
   | d :: r => by simp [srcBranches, srcOfSyn, BrD.syn, srcBranches_eq r]
 
-inductive All2 {α β : Type} (R : α → β → Prop) : List α → List β → Prop where
-  | nil : All2 R [] []
-  | cons {a : α} {b : β} {as : List α} {bs : List β} : R a b → All2 R as bs → All2 R (a :: as) (b :: bs)
-
 /-- an elseif after step 2 -/
 def EarlyOK (cx : Cx) (fuel : Nat) (E : Nat) (s0 : St) (env : Src.Env) (sA : St) (y : ESyn) (a : ElifA) : Prop :=
   a.neg = y.neg ∧ HdrsOK y.hs ∧ NamesOf y.hs a.bps ∧ (∀ b ∈ a.bps, b.positive = !y.neg) ∧
@@ -47,10 +43,6 @@ theorem EarlyOK.mono {cx : Cx} {fuel E : Nat} {s0 : St} {env : Src.Env} {sA sA' 
   obtain ⟨blk, sB, a1, a2, a3⟩ := h5 hn
   exact ⟨blk, sB, a1, a2.trans hle, a3⟩
 
-theorem All2.imp {α β : Type} {R R' : α → β → Prop} (hi : ∀ a b, R a b → R' a b) : ∀ {as : List α} {bs : List β}, All2 R as bs → All2 R' as bs
-  | _, _, .nil => .nil
-  | _, _, .cons h r => .cons (hi _ _ h) (All2.imp hi r)
-
 def EAC (cx : Cx) (fuel : Nat) (env : Src.Env) (ys : List ESyn) (elifsA : M (List ElifA)) : Prop :=
   ∀ E s0 s as s', SameStk s0 s → elifsA s = .ok (as, s') → SameStk s s' ∧ All2 (EarlyOK cx fuel E s0 env s') ys as
 
@@ -61,7 +53,7 @@ def EBC (cx : Cx) (fuel : Nat) (env : Src.Env) (ys : List ESyn) (elifsB : List E
       patchNone E (elifsFront as late) = frontOf ds ∧ patchNone E (elifsBack as late) = backOf ds
 
 theorem elifAOf_c (cx : Cx) (fuel : Nat) (env : Src.Env) (neg : Bool) (hdrs : List Hdr) (bodyS : Stmts) (hh : HdrsOK hdrs)
-    {body : M (List LItem)} (hm : PM cx body (fun k b => Src.trStmts fuel [] env (toSrcStmts bodyS) k b) env)
+    {body : M (List LItem)} (hm : PM cx body (fun k b => Src.trStmts fuel cx.sm env (toSrcStmts bodyS) k b) env)
     (E : Nat) (s0 : St) {s : St} {a : ElifA} {s' : St} (hstk : SameStk s0 s) (h : elifAOf neg hdrs body s = .ok (a, s')) :
     SameStk s s' ∧ EarlyOK cx fuel E s0 env s' ⟨neg, hdrs, bodyS⟩ a := by
   simp only [elifAOf, bind_ok, pure_ok] at h
@@ -88,7 +80,7 @@ theorem elifAOf_c (cx : Cx) (fuel : Nat) (env : Src.Env) (neg : Bool) (hdrs : Li
     exact ⟨e12, rfl, hh, hnm, hpos, fun hc => (by cases hc), fun _ => rfl⟩
 
 theorem elifBOf_c (cx : Cx) (fuel : Nat) (env : Src.Env) (y : ESyn) {body : M (List LItem)}
-    (hm : PM cx body (fun k b => Src.trStmts fuel [] env (toSrcStmts y.body) k b) env)
+    (hm : PM cx body (fun k b => Src.trStmts fuel cx.sm env (toSrcStmts y.body) k b) env)
     (E : Nat) (s0 : St) {sA : St} {a : ElifA} (ha : EarlyOK cx fuel E s0 env sA y a) {s : St} {blk : Blk} {s' : St} (hstk : SameStk s0 s)
     (hle : NamedLe sA s) (h : elifBOf a body s = .ok (blk, s')) :
     SameStk s s' ∧ ∃ sB, NamedLe sB s' ∧ BrOK cx fuel E s0 env ⟨y.neg, y.hs, y.body, blk.hdrs, patchNone E blk.items, sB⟩ ∧
@@ -113,11 +105,11 @@ theorem patchNone_ite_true (e : Nat) (l : List LItem) : patchNone e (if True the
 theorem ite_piece (cx : Cx) (fuel : Nat) (env : Src.Env) (he : EnvOK cx env) (neg : Bool) (hdrs : List Hdr) (hasElse : Bool)
     (bodyS elsS : Stmts) (ys : List ESyn) (hh : HdrsOK hdrs)
     {body els : M (List LItem)} {elifsA : M (List ElifA)} {elifsB : List ElifA → M (List Blk)}
-    (hm : PM cx body (fun k b => Src.trStmts fuel [] env (toSrcStmts bodyS) k b) env)
-    (hE : PM cx els (fun k b => Src.trStmts fuel [] env (toSrcStmts elsS) k b) env)
+    (hm : PM cx body (fun k b => Src.trStmts fuel cx.sm env (toSrcStmts bodyS) k b) env)
+    (hE : PM cx els (fun k b => Src.trStmts fuel cx.sm env (toSrcStmts elsS) k b) env)
     (hA : EAC cx fuel env ys elifsA) (hB : EBC cx fuel env ys elifsB) :
     PM cx (iteOf neg hdrs body elifsA hasElse els elifsB)
-      (fun k b => Src.tr fuel [] env (.ite (.cons neg (hdrs.map hdrEv) (toSrcStmts bodyS) (srcOfSyn ys)) hasElse (toSrcStmts elsS)) k b)
+      (fun k b => Src.tr fuel cx.sm env (.ite (.cons neg (hdrs.map hdrEv) (toSrcStmts bodyS) (srcOfSyn ys)) hasElse (toSrcStmts elsS)) k b)
       env := by
   intro s items s' h
   simp only [iteOf, bind_ok, tickLbl_ok, pure_ok] at h
@@ -129,30 +121,30 @@ theorem ite_piece (cx : Cx) (fuel : Nat) (env : Src.Env) (he : EnvOK cx env) (ne
   obtain ⟨e1, hnm, hpos⟩ := collectIfHdrs_shape _ _ _ _ _ h1
   have st1 := st0.trans e1
   -- the source side
-  have htr : ∀ k b, Src.tr fuel [] env (.ite (.cons neg (hdrs.map hdrEv) (toSrcStmts bodyS) (srcOfSyn ys)) hasElse (toSrcStmts elsS)) k b =
-      Src.trBranches fuel [] env (.cons neg (hdrs.map hdrEv) (toSrcStmts bodyS) (srcOfSyn ys)) k
-        ((fun k b => if hasElse then Src.trStmts fuel [] env (toSrcStmts elsS) k b else (b, k)) k b).2
-        ((fun k b => if hasElse then Src.trStmts fuel [] env (toSrcStmts elsS) k b else (b, k)) k b).1 := by
+  have htr : ∀ k b, Src.tr fuel cx.sm env (.ite (.cons neg (hdrs.map hdrEv) (toSrcStmts bodyS) (srcOfSyn ys)) hasElse (toSrcStmts elsS)) k b =
+      Src.trBranches fuel cx.sm env (.cons neg (hdrs.map hdrEv) (toSrcStmts bodyS) (srcOfSyn ys)) k
+        ((fun k b => if hasElse then Src.trStmts fuel cx.sm env (toSrcStmts elsS) k b else (b, k)) k b).2
+        ((fun k b => if hasElse then Src.trStmts fuel cx.sm env (toSrcStmts elsS) k b else (b, k)) k b).1 := by
     intro k b
     rw [Src.tr]
   -- both polarities end in the same assembly
   have fin : ∀ (items : List LItem) (d0 : BrD) (ds : List BrD), d0.neg = neg → d0.hs = hdrs → d0.body = bodyS → ds.map BrD.syn = ys →
       (∀ d ∈ d0 :: ds, BrOK cx fuel (s.lbc + 1) s env d) → (∀ d ∈ d0 :: ds, NoNone d.hdrs ∧ NoNone d.PB) →
       (∀ d ∈ d0 :: ds, NamedLe d.sB s') →
-      ∀ ep' sE, ElseOK cx (s.lbc + 1) s env sE ep' (fun k b => if hasElse then Src.trStmts fuel [] env (toSrcStmts elsS) k b else (b, k)) →
+      ∀ ep' sE, ElseOK cx (s.lbc + 1) s env sE ep' (fun k b => if hasElse then Src.trStmts fuel cx.sm env (toSrcStmts elsS) k b else (b, k)) →
       NamedLe sE s' → SameStk s s' → items = frontOf (d0 :: ds) ++ ep' ++ backOf (d0 :: ds) ++ [.label (s.lbc + 1) false] →
       PieceOK cx items s s'
-        (fun k b => Src.tr fuel [] env (.ite (.cons neg (hdrs.map hdrEv) (toSrcStmts bodyS) (srcOfSyn ys)) hasElse (toSrcStmts elsS)) k b) env := by
+        (fun k b => Src.tr fuel cx.sm env (.ite (.cons neg (hdrs.map hdrEv) (toSrcStmts bodyS) (srcOfSyn ys)) hasElse (toSrcStmts elsS)) k b) env := by
     intro items d0 ds a1 a2 a3 a4 hbr hnn hleB ep' sE hel hleE hst hitems
     have := ite_assemble cx fuel (s.lbc + 1) s s' env he (d0 :: ds) hbr hnn ep' _ sE hel hst hleB hleE
     rw [hitems]
     have hsrc : srcBranches (d0 :: ds) = .cons neg (hdrs.map hdrEv) (toSrcStmts bodyS) (srcOfSyn ys) := by
       simp only [srcBranches, a1, a2, a3, srcBranches_eq ds, a4]
     rw [hsrc] at this
-    have hfun : (fun k b => Src.tr fuel [] env (.ite (.cons neg (hdrs.map hdrEv) (toSrcStmts bodyS) (srcOfSyn ys)) hasElse (toSrcStmts elsS)) k b) =
-        (fun k b => Src.trBranches fuel [] env (.cons neg (hdrs.map hdrEv) (toSrcStmts bodyS) (srcOfSyn ys)) k
-          ((fun k b => if hasElse then Src.trStmts fuel [] env (toSrcStmts elsS) k b else (b, k)) k b).2
-          ((fun k b => if hasElse then Src.trStmts fuel [] env (toSrcStmts elsS) k b else (b, k)) k b).1) := by
+    have hfun : (fun k b => Src.tr fuel cx.sm env (.ite (.cons neg (hdrs.map hdrEv) (toSrcStmts bodyS) (srcOfSyn ys)) hasElse (toSrcStmts elsS)) k b) =
+        (fun k b => Src.trBranches fuel cx.sm env (.cons neg (hdrs.map hdrEv) (toSrcStmts bodyS) (srcOfSyn ys)) k
+          ((fun k b => if hasElse then Src.trStmts fuel cx.sm env (toSrcStmts elsS) k b else (b, k)) k b).2
+          ((fun k b => if hasElse then Src.trStmts fuel cx.sm env (toSrcStmts elsS) k b else (b, k)) k b).1) := by
       funext k b; exact htr k b
     rw [hfun]
     exact this
